@@ -387,6 +387,35 @@ fn part_contexts(depth: usize, st: &mut Stats) {
     go(&HCtx::new(), &mut vec![], &ops, &pool, depth, depth, st);
 }
 
+/// Long expressions and contexts with many variables.
+fn part_scaling(thorough: bool, st: &mut Stats) {
+    let mut sizes: Vec<usize> = (1..=if thorough { 40 } else { 20 }).collect();
+    sizes.extend(if thorough { vec![64, 65, 100, 129, 200, 400] } else { vec![33, 64, 65, 129] });
+    for n in sizes {
+        for src in [
+            format!("{}1", "1+".repeat(n)),
+            format!("{}x{}", "(".repeat(n), ")".repeat(n)),
+            format!("\"{}\"", "a\\\\\\\"ä".repeat(n)),
+            format!("{}f(1)", "-".repeat(n)),
+            format!("{}", "v, ".repeat(n)),
+            format!("x = {} // {}\n + 1", n, "c".repeat(n)),
+            format!("{}1", "(".repeat(n)),
+        ] {
+            check_expression(&src, st);
+        }
+        let pool = value_pool();
+        let pool: Vec<EV> = pool.into_iter().filter(value_usable).collect();
+        let mut c = HCtx::new();
+        for i in 0..n {
+            let name = if i % 2 == 0 { format!("v{}", i) } else { format!("V{}", i - 1) };
+            c.set_value(name, pool[i % pool.len()].clone()).unwrap();
+        }
+        c.set_value("nested".into(), Value::Tuple((0..n).map(|i| pool[i % pool.len()].clone()).collect())).unwrap();
+        check_context(&c, &format!("{} variables of cycling types and one {}-tuple", n, n), st);
+        *st.counters.entry("s/scaling-family-sizes".into()).or_insert(0) += 1;
+    }
+}
+
 fn write_outputs(tier: &str, seed: u64, st: &Stats, wall: f64) -> i32 {
     let replay_dir = "/verif/replays/C16";
     let _ = std::fs::remove_dir_all(replay_dir);
@@ -417,7 +446,7 @@ fn write_outputs(tier: &str, seed: u64, st: &Stats, wall: f64) -> i32 {
         st.states,
         st.transitions,
         st.transitions,
-        esc("(a) depth-first search over every token sequence up to the tier's length over a 14-token alphabet and every character string up to the tier's length over 25 characters (quotes, backslashes, newline, multi-byte, signs, digits, dot, e, x, punctuation), each encoded as a RON string with ron::ser::to_string and decoded as Node: Ok trees must equal build_operator_tree(s), Err messages must equal error.to_string(); (b) every HashMapContext reachable by API histories up to the tier's depth over {set_value of 4 names (two differing only in case, one with a space and a non-ASCII letter, the empty name) x a value pool of all six types incl. i64 extremes, signed zero, subnormal, infinities, NaN, nested/empty tuples, hostile strings; clear_variables; set_function; builtin switch on/off; expression assignments}: from_str(to_string(c)) must have the same sorted variable map (floats by bits), the same switch and resolve no user function; plus every pool value as a bare Value. A state is a token/character prefix or a context history; a transition appends a token or applies an operation; every state is executed on the implementation. Non-trivial = sources of >= 3 bytes and contexts with >= 2 variables (each enumerated once)"),
+        esc("(a) depth-first search over every token sequence up to the tier's length over a 14-token alphabet and every character string up to the tier's length over 25 characters (quotes, backslashes, newline, multi-byte, signs, digits, dot, e, x, punctuation), each encoded as a RON string with ron::ser::to_string and decoded as Node: Ok trees must equal build_operator_tree(s), Err messages must equal error.to_string(); (b) every HashMapContext reachable by API histories up to the tier's depth over {set_value of 4 names (two differing only in case, one with a space and a non-ASCII letter, the empty name) x a value pool of all six types incl. i64 extremes, signed zero, subnormal, infinities, NaN, nested/empty tuples, hostile strings; clear_variables; set_function; builtin switch on/off; expression assignments}: from_str(to_string(c)) must have the same sorted variable map (floats by bits), the same switch and resolve no user function; plus every pool value as a bare Value; plus scaling families (expressions of n terms / nesting depth n / strings of n escapes, contexts with n variables incl. case-colliding names and an n-tuple, n in 1..20 and up to 129 / 1..40 and up to 400). A state is a token/character prefix or a context history; a transition appends a token or applies an operation; every state is executed on the implementation. Non-trivial = sources of >= 3 bytes and contexts with >= 2 variables (each enumerated once)"),
         samples,
         counters,
         [
@@ -497,9 +526,11 @@ fn main() {
         if tier == "quick" {
             part_expressions(5, 3, &mut st);
             part_contexts(2, &mut st);
+            part_scaling(false, &mut st);
         } else {
             part_expressions(6, 4, &mut st);
             part_contexts(3, &mut st);
+            part_scaling(true, &mut st);
         }
     }));
     if r.is_err() {
